@@ -13,7 +13,8 @@ SIGMA_M_STRUCT = ['a', '1', '$', '#', '.', '*', '>', '+', '^', '(', ')', '[', ']
 # token-level markup units that cannot be spelled within the character bound
 UNITS_M = ['a', 'ul', 'lorem', 'lorem5-', 'lorem-', 'label', 'input', '$#', '${1}', '${1:x}', '${a}', '*3', '*', '$$@-3', '$@^',
            '{t}', '{l1\nl2 ${1:x}}', '[a=b]', '[a="b c"]', '["q"]', '[', ']', '{', '}', '.c', '#i', '.', '/', '>', '+', '^', '(', ')', ' ', '"', '-',
-           '!', ':', '\\', NBSP, 'é', '٣', 'A', '0', '.-e', '._m', '..', '{${1}}', '[class=""]']       # 0: counts and word numbers of zero; BEM shorthands
+           '!', ':', '\\', NBSP, 'é', '٣', 'A', '0', '.-e', '._m', '..', '{${1}}', '[class=""]',        # 0: counts and word numbers of zero; BEM shorthands
+           '["*"]', '{*}']      # the repeater character where it is literal (after stray closers the context counters decide)
 
 # stylesheet abbreviation characters: t = transparent, f/a = hex letters, 0 vs 1 because 0 is unit-less
 SIGMA_S = ['a', 't', 'f', '1', '0', '$', '#', '.', '-', '!', ':', '/', '+', '(', ')', '{', '}', '"', "'", ' ', '%',
